@@ -23,6 +23,8 @@ EXHAUSTIVE_NOTE = "grid inverses (4 versions x 1280 rows x all columns) and the 
 ASSUMPTIONS = ["saved-channel subsets are contiguous ranges first..first+n-1 of the acquired channels; metadata lists sites of "
                "the saved channels only and the IMRO table of all acquired channels",
                "NPultra has no snsGeomMap case (outside the property's quantifier)"]
+# thorough tier: the same property driven by Atheris / libFuzzer (coverage-guided) as a second engine
+ATHERIS = {"runs": 200000, "seconds": 180}
 BUDGET = {"quick": 8000, "thorough": 250000}
 KEYS = ("x", "y", "row", "col", "shank", "adc", "sample_shift", "ind")
 NCOLS = {"1": 4, "2": 2, "2.4": 2, "NPultra": 8}
